@@ -199,10 +199,6 @@ def run_case(case: dict) -> dict:
         blueprint_probes(res, wa)
         excl = set(case.get("exclude") or [])
         probe(res, "stateful_body" if case.get("stateful") else "stateless_body")
-        if case.get("stateful") and "loop-memory" in excl:
-            res["status"] = "excluded"
-            res["excluded_by"] = "loop-memory"
-            return res
         tw = Twin([wa, wb])
         if "crosstalk" in excl and (has_known_structure(wa, tw.obs[0], True)
                                     or has_known_structure(wb, tw.obs[1], True)):
@@ -219,15 +215,21 @@ def run_case(case: dict) -> dict:
                                      {i["name"] for i in case["inputs"]} for s in un):
             probe(res, "zero_iterations_total")
         vals = input_inits(case)
+        cell_reads = {base_group(s[2]) for s in un if s[0] == "decl" and s[3][0] == "read"}
         for si, step in enumerate([{}] + list(case["history"])):
             vals.update({k: v for k, v in step.items() if not k.startswith("__")})
             tw.set_inputs(vals)
             if case.get("stateful"):
-                # free-running counters: compare traces tick by tick (same circuit shape expected)
+                # free-running counters (their increments never depend on inputs): the cells are
+                # compared tick by tick; everything else has no promised latency (a loop-local
+                # comparison may be inlined into the entity while its unrolled, named twin is
+                # not) and is compared once the stateless part is at rest
                 for _t in range(12):
                     oa, ob = observe(wa, tw.obs[0], base_group), observe(wb, tw.obs[1], base_group)
+                    cells = [k for k in oa if k[0] == "anchor" and k[1] in cell_reads]
                     compare_obs(oa, ob, res, {"step": si, "tick": _t, "inputs": dict(vals)},
-                                "loop-differs-from-unrolling", first_may_expose_fewer=True)
+                                "loop-differs-from-unrolling", keys=cells if _t < 11 else None,
+                                first_may_expose_fewer=True)
                     wa.step(); wb.step()
                 res["ticks"] += 24
                 continue
